@@ -7,11 +7,11 @@ HOOK_COMMITS = ["7a0cbf6"]
 # id -> (engine, category, text, note, technique, design_ref)
 CHECKS = {
  "C01": ("sim", "exploration",
-   "The real Worker::send_file runs against a simulated socket; proptest generates blksize x windowsize x file size x handshake x fault fates x adversarial ACK scripts; trace predicates S1 (every DATA = its file slice), S2 (no block beyond the final one), S11 (a transfer that ends acknowledged has sent its short final block) and the model client's reassembled copy (identical or incomplete) decide. A wire part repeats the slice check against the real tftpd with partial/duplicate ACKs. Sampling, not exhaustive.",
+   "The real Worker::send_file runs against a simulated socket; proptest generates blksize x windowsize x file size x handshake x fault fates x adversarial ACK scripts; trace predicates S1 (every DATA = its file slice), S2 (no block beyond the final one), S11 (a transfer that ends acknowledged has sent its short final block) and the model client's reassembled copy (identical or incomplete) decide. Wire parts repeat the slice check against the real tftpd with partial/duplicate ACKs and a retransmitted request, and run the real tftpc against the real tftpd through a relay that duplicates, reorders and drops datagrams (identical copy or none). Sampling, not exhaustive.",
    "Trusts the trace predicates (harness/src/pred.rs), the model client, and the virtual-clock hook; lying ACKs only without block-number wrap-around.",
    "proptest scenario generation over a simulated socket + model client, trace-predicate oracle; wire spot checks", "4/C01"),
  "C02": ("sim", "exploration",
-   "The real Worker::receive_file under the simulated socket: arrivals generated from a conformant sender's datagrams by drop/dup/swap/late fates plus scripted duplicates, out-of-order blocks and strays; at every emitted ACK the file is read back from disk (R1 ACK never ahead, R2 file = in-order concatenation containing all acknowledged blocks, R5 final file). A wire part uploads to the real tftpd and reads the stored file at every received ACK.",
+   "The real Worker::receive_file under the simulated socket: arrivals generated from a conformant sender's datagrams by drop/dup/swap/late fates plus scripted duplicates, out-of-order blocks and strays; at every emitted ACK the file is read back from disk (R1 ACK never ahead, R2 file = in-order concatenation containing all acknowledged blocks, R5 final file). Wire parts upload to the real tftpd (also with maximal block sizes) and read the stored file at every received ACK, and run the real tftpc through a duplicating/reordering/dropping relay; a sixteenth of the sim cases runs under a file-size limit.",
    "Trusts pred.rs and the rule that injected DATA carries the true payload of its absolute block.",
    "proptest history generation over a simulated socket, on-disk oracle at every ACK; wire spot checks", "4/C02"),
  "C03": ("wire", "exploration",
@@ -19,15 +19,15 @@ CHECKS = {
    "No symlinks in the tree; Linux path semantics; snapshot attribution is batch-wise (changes allowed in the receive dir once any WRQ of the batch was accepted).",
    "bounded-exhaustive name enumeration + proptest, filesystem-snapshot oracle against the real binary", "4/C03"),
  "C04": ("sim", "fault_enumeration",
-   "Every placement of 1 and 2 faults (thorough 3) of 4 kinds over all datagrams of both directions for windowsize 1..4 (5), 6 lengths x 3 last-block shapes, 2 peer styles, both roles, plus proptest random fault lists (<=5 faults), 6..11 isolated faults three windows apart, and a wire part with 1..5 consecutive losses against the real tftpd at timeout 1 s; oracle = model peer holds the complete file and the worker ended successfully (RFC 1350 last-ACK exception only).",
+   "Every placement of 1 and 2 faults (thorough 3) of 4 kinds over all datagrams of both directions for windowsize 1..4 (5), 6 lengths x 3 last-block shapes, 2 peer styles, both roles, plus proptest random fault lists (<=5 faults), 6..11 isolated faults three windows apart, a wire part with 1..5 consecutive losses against the real tftpd at timeout 1 s, and the real tftpc against the real tftpd through a relay that drops one data-phase datagram; oracle = model peer holds the complete file and the worker ended successfully (RFC 1350 last-ACK exception only).",
    "Precondition by construction (<=5 faults, peer timer = worker timeout). Exhaustive only inside the stated box.",
    "exhaustive fault-placement enumeration + proptest, completion oracle with a conformant model peer", "4/C04"),
  "C05": ("wire", "exploration",
-   "Generated datagram sequences (proptest: option boundary values up to and beyond 2^64, structure-aware mutations, raw bytes, oversized datagrams, 4 sources) and a deterministic option x value sweep against a fresh real tftpd per case in 4 modes; oracle = liveness probe (canonical RRQ served correctly) and process still running; isolated re-run before reporting.",
+   "Generated datagram sequences (proptest: option boundary values up to and beyond 2^64, structure-aware mutations, raw bytes, oversized datagrams, 4 sources) a deterministic option x value sweep against a fresh real tftpd per case in 4 modes, and long-lived servers (700/5000 sequential transfers); oracle = liveness probes from a fresh socket and from a socket of the sequence (canonical RRQ served correctly) and process still running; isolated re-run before reporting.",
    "At most 29 datagrams per fresh server; volume-based exhaustion not explored.",
    "proptest sequence generation + mutation against the real binary, liveness-probe oracle", "4/C05"),
  "C06": ("wire", "exploration",
-   "Model-based testing: proptest generates a configuration and a history of <=11 requests; a reference decision table and model filesystem predict each reply class and the exact tree; the real send/receive trees are compared byte-for-byte with the model after every step.",
+   "Exhaustive decision table (32 configurations x RRQ/WRQ x 11 targets) plus model-based testing: proptest generates a configuration and a history of <=11 requests; a reference decision table and model filesystem predict each reply class and the exact tree; the real send/receive trees are compared byte-for-byte with the model after every step.",
    "Targets live in existing directories; aborted uploads follow C13's clean/keep rule in the model.",
    "model-based stateful proptest (decision table + model filesystem) against the real binary", "4/C06"),
  "C07": ("sim", "fault_enumeration",
@@ -35,11 +35,11 @@ CHECKS = {
    "Virtual clock in the sim part; the wire part uses real time with tolerances and an isolated re-run.",
    "exhaustive position x cause enumeration + proptest scripts, trace predicates; wire timing part", "4/C07"),
  "C08": ("sim", "exploration",
-   "proptest scripts of duplicate/stale/partial ACKs, forced timeouts and deliveries at 0, 1/4, 1/2, 999/1000 and 1 timeout of virtual time for windowsize 1..16, 65534, 65535 and random; long transfers with stale numbers from behind the wrap; receiver role with duplicates; predicates S3/S4/S5/S10/R3, no panic, and completion after harmless ACKs.",
+   "proptest scripts of duplicate/stale/partial ACKs, forced timeouts and deliveries at 0, 1/4, 1/2, 999/1000 and 1 timeout of virtual time for windowsize 1..16, 65534, 65535 and random; long transfers with stale numbers from behind the wrap; receiver role with duplicates; predicates S3/S4/S5/S10/R3, no panic, and completion after harmless ACKs; windows of more than 32768 filled blocks; wire parts: burst size never above the acknowledged windowsize (model client with enlarged receive buffer) and, in real time, no retransmission on a stale ACK after a window whose transmission outlasts the timeout.",
    "Stale ACK numbers never alias an outstanding block; handshake is left undisturbed.",
    "proptest adversarial-script generation with a virtual clock, trace-predicate oracle", "4/C08"),
  "C09": ("wire", "exploration",
-   "proptest generates subsets/orders/cases of the four options with boundary and unhonourable values (also > 2^16 and > 2^32 non-multiples), unknown options interleaved, RRQ/WRQ, both port modes; OACK truthfulness rules and then the measured transfer (exact block length, exact burst size incl. windows larger than the socket buffer, ACK after exactly W blocks, retransmission not before the acknowledged timeout, content).",
+   "Deterministic boundary sweep and all 65 ordered option selections, then proptest generates subsets/orders/cases of the four options with boundary and unhonourable values (also > 2^16 and > 2^32 non-multiples), unknown options interleaved, RRQ/WRQ, both port modes; OACK truthfulness rules and then the measured transfer (exact block length, exact burst size incl. windows larger than the socket buffer, ACK after exactly W blocks, retransmission not before the acknowledged timeout, content).",
    "Timeouts > 255 not generated; timing tolerance 130 ms; big-window cases need SO_RCVBUFFORCE (skipped otherwise).",
    "proptest option-grammar generation against the real binary, reference negotiation rules + measured transfer", "4/C09"),
  "C10": ("pure", "exploration",
@@ -59,7 +59,7 @@ CHECKS = {
    "Write errors only as EFBIG; the no-overwrite create/exists race is judged whichever way it falls.",
    "exhaustive abort-point enumeration + proptest, directory post-condition oracle; wire histories", "4/C13"),
  "C14": ("wire", "exploration",
-   "The real tftpc against the real tftpd: proptest over direction x port mode x IPv4/IPv6 x path style x blksize x windowsize x timeout x size families x refusal kinds, plus two >65535-block transfers; oracle = byte-identical files at the documented locations, refusal behaviour, termination within a watchdog.",
+   "The real tftpc against the real tftpd: a deterministic size x option grid and proptest over direction x port mode x IPv4/IPv6 x path style x blksize x windowsize x timeout x size families x refusal kinds x server --duplicate-packets x client --keep-on-error x stale destination file, plus 65536- and 65538-block transfers; oracle = byte-identical files at the documented locations, refusal behaviour, termination within a watchdog.",
    "One burst kept below 100 KB (loopback drops); absolute local paths not generated.",
    "proptest configuration generation driving both real binaries, file-equality oracle", "4/C14"),
  "C15": ("sim", "exploration",
@@ -67,7 +67,7 @@ CHECKS = {
    "blksize 8 only for the long transfers.",
    "proptest + exhaustive single-fault enumeration at the wrap over a simulated socket, absolute-index trace predicates", "4/C15"),
  "C16": ("sim", "exploration",
-   "repeat = N+1 for N in {0,1,2,3,254} x roles x windows x sizes in the simulator (S9 multiplicity, content, termination), the repo's own sender against its own receiver over an in-memory link with N on either side, and a wire grid --duplicate-packets {0,1,2,3,254,255,256,-1,1000,x} x port mode x options (initial reply once, DATA/ACK N+1 times, start-up rejection).",
+   "repeat = N+1 for N in {0,1,2,3,254} x roles x windows x sizes in the simulator (S9 multiplicity, content, termination), the repo's own sender against its own receiver over an in-memory link with N on either side, burst losses in duplicate mode, an uploader that leaves after the final ACK, and a wire grid --duplicate-packets {0,1,2,3,254,255,256,-1,1000,x} x port mode x options (initial reply once, DATA/ACK N+1 times, start-up rejection) plus two-window 300-block uploads and a real-time stale-ACK case.",
    "The 1 ms sleep between copies is not judged.",
    "proptest over the simulated socket and an in-memory worker pair, multiplicity oracle; wire grid", "4/C16"),
  "C17": ("pure", "exploration",
